@@ -176,3 +176,23 @@ Proof.
   cbv zeta. split; [vm_compute; reflexivity|]. split; [vm_compute; reflexivity|]. split; [|split; vm_compute; reflexivity].
   cbn [app]. repeat constructor; try (vm_compute; reflexivity).
 Qed.
+
+(* ---- entries of the verification directory that cannot be recorded (model/PipelineInst.v: a symbolic link whose
+   target does not exist is listed with the digest "!") ----
+   recording the directory is the first thing an inspection does; it fails, and with it the verification - the entry
+   is never skipped silently, and neither this inspection's command nor any later inspection runs *)
+From IT Require Import model.PipelineInst.
+
+Theorem C09_unreadable_entry_stops_verification :
+  forall cmds path dsse w i r acc tr,
+    world_recordable w = false ->
+    run_inspections world (run_insp_tbl cmds) retval_zero_tbl path dsse w (i :: r) acc tr = (Err e_record, tr).
+Proof.
+  intros cmds path dsse w i r acc tr H. cbn [run_inspections]. unfold run_insp_tbl. rewrite H. reflexivity.
+Qed.
+Print Assumptions C09_unreadable_entry_stops_verification.
+
+Example C09_unreadable_entry_example :
+  world_recordable (mkWorld [] [(bs "README", bs "00"); (bs "plugin.so", unreadable_mark)]) = false /\
+  world_recordable (mkWorld [] [(bs "README", bs "00")]) = true.
+Proof. vm_compute. split; reflexivity. Qed.
